@@ -235,6 +235,12 @@ impl Parser for Markdown {
                     }
                 }
                 pulldown_cmark::Event::Text(text) => {
+                    // After some malformed wikilinks (`[[a|]]|b`) pulldown-cmark reports the
+                    // text that follows twice. What starts before the cursor has been seen.
+                    if range.start < traversed_bytes {
+                        continue;
+                    }
+
                     let chunk_len = text.chars().count();
 
                     if let Some(tag) = stack.last() {
